@@ -5,7 +5,7 @@ case = {"stream": str,
         "nodes": [ {"kind": "iface", "bases": [ids]} |
                    {"kind": "class", "cbases": [ids of earlier class nodes], "impl": [iface ids]} ],
                    an iface node may carry "twin_of": id  (same __name__/__module__ as that earlier node)
-        "rebase": [[node_id, [new base ids]], ...]        (optional)
+        "rebase": [[node_id, [new base ids]], ...]        (optional; a third element False = do not observe after it)
         "env_strict": bool                                  (optional: only used by the oracle stream)
        }
 Node ids: 0 is ``Interface``; case nodes are 1..n in creation order; further specifications that
@@ -98,11 +98,18 @@ def run_case(case, idx):
     w = World()
     build(case, idx, w)
     phases = [observe(w)]
-    for x, nb in case.get("rebase", []):
+    for op in case.get("rebase", []):
+        x, nb = op[0], op[1]
         w.specs[x].__bases__ = tuple(w.specs[b] for b in nb)
-        phases.append(observe(w))
+        if len(op) < 3 or op[2]:          # [node, bases, False]: no observation after this step
+            phases.append(observe(w))
     kinds = [isinstance(s, InterfaceClass) for s in w.specs]
-    return {"kinds": kinds, "phases": phases}
+    out = {"kinds": kinds, "phases": phases}
+    if case.get("twins"):
+        # the same shape and history with unique names: only used to recognise known finding F15
+        plain = dict(case, twins=False, nodes=[{k: v for k, v in nd.items() if k != "twin_of"} for nd in case["nodes"]])
+        out["ref"] = run_case(plain, idx + 100000)["phases"]
+    return out
 
 
 def run_env_strict(case, idx):
